@@ -365,7 +365,7 @@ Definition ex_err : event := EvError [120%N].
 Example error_then_close_errevent :
   exists tr s, visible tr = [LConnCall [] false; LInit; LPeerSend (LnEv ex_err); LPeerClose;
                              LDeliver ex_err; LDisc; LReturn (EErrEvent [120%N])]
-               /\ wexec (init 3) tr s.
+               /\ wexec (init 7) tr s.
 Proof.
   apply (accepts_sound 50 [LConnCall [] false; LInit; LPeerSend (LnEv ex_err); LPeerClose;
                            LDeliver ex_err; LDisc; LReturn (EErrEvent [120%N])]).
@@ -374,7 +374,7 @@ Qed.
 Example error_then_close_ioerr :
   exists tr s, visible tr = [LConnCall [] false; LInit; LPeerSend (LnEv ex_err); LPeerClose;
                              LDeliver ex_err; LDisc; LReturn EIO]
-               /\ wexec (init 3) tr s.
+               /\ wexec (init 7) tr s.
 Proof.
   apply (accepts_sound 50 [LConnCall [] false; LInit; LPeerSend (LnEv ex_err); LPeerClose;
                            LDeliver ex_err; LDisc; LReturn EIO]).
